@@ -42,6 +42,15 @@ from rtamt.syntax.node.ltl.constant import Constant
 from rtamt.exception.exception import RTAMTException
 
 
+def literal_text(ctx):
+    # IntegerLiteral also admits hexadecimal (0x1F) and binary (0b101) numerals,
+    # which float() and Decimal() do not read
+    text = ctx.getText()
+    if text[:2] in ('0x', '0X', '0b', '0B'):
+        return str(int(text, 0))
+    return text
+
+
 class LtlAstParserVisitor(LtlParserVisitor):
 
     def visitExprPredicate(self, ctx):
@@ -123,7 +132,7 @@ class LtlAstParserVisitor(LtlParserVisitor):
         # fetch the variable name, type and io signature
         const_name = ctx.Identifier().getText()
         const_type = ctx.domainType().getText()
-        const_value = ctx.literal().getText()
+        const_value = literal_text(ctx.literal())
 
         self.declare_const(const_name, const_type, const_value)
 
@@ -218,7 +227,7 @@ class LtlAstParserVisitor(LtlParserVisitor):
         return node
 
     def visitExprLiteral(self, ctx):
-        val = float(ctx.literal().getText())
+        val = float(literal_text(ctx.literal()))
         node = Constant(val)
         self.phi_name_to_node_dict[node.name] = node
         return node
